@@ -534,6 +534,14 @@ fn one_pass_message_case(t: &mut Tape, rec: &mut Rec) -> CaseResult {
                 rec.discard();
                 return Ok(());
             };
+            // an altered octet that the parser normalises away (e.g. the bit count of an MPI) leaves
+            // the same signature: not a change of the signature value
+            if let (Some(s1), Some(s2)) = (parse_sig_packet(&bodies[target_sig].1), parse_sig_packet(&b2)) {
+                if s1 == s2 {
+                    rec.label("trivial:reencoding");
+                    return Ok(());
+                }
+            }
             bodies[target_sig].1 = b2;
             format!("trailing signature: {w}")
         }
